@@ -613,8 +613,8 @@ void Interpret::pop(int n) {
         if (n < 0) {
             notify_formatted(true, "Incorrect pop command, value is negative.");
         } else {
-            bool success = true;
-            while (n-- and success) {
+            bool success = static_cast<std::size_t>(n) <= main_solver->getAssertionLevel();
+            while (success and n--) {
                 success = main_solver->pop();
                 if (success) {
                     defined_functions.popScope();
